@@ -194,3 +194,121 @@ Definition showp (p : Q * Q) : list (list Z) := [showq (fst p); showq (snd p)].
 Definition showol (l : list (option Q)) : list (list Z) :=
   map (fun o => match o with Some q => showq q | None => [] end) l.
 Definition showm (m : list (list Q)) : list (list (list Z)) := map (map showq) m.
+
+(* ================================================================ round-3 extension *)
+(* ---------------------------------------------------------------- call histories *)
+(* One call of _set_intensities_com(intensities, dp_mask, vectorized_calculation) on an array
+   the caller keeps: the result (com_measured_r, com_measured_c) and the caller's array after
+   the call. *)
+Inductive com_call := ComCall (vectorised : bool) (mask : option matrix).
+Definition call_mask (c : com_call) : option matrix := let '(ComCall _ m) := c in m.
+
+(* with fixes/C18-looped-com-mutates-input.diff: neither path touches the caller's array *)
+Definition com_step (Rn Cn H W : nat) (I4 : list (list matrix)) (c : com_call)
+  : (list (list Q) * list (list Q)) * list (list matrix) :=
+  match c with
+  | ComCall true m => (com_vectorised H W m I4, I4)
+  | ComCall false m => (com_looped Rn Cn H W m I4, I4)
+  end.
+
+(* as written before that fix: `masked_intensity *= dp_mask` acts on a view of the caller's
+   array, so after a looped call with a mask the array holds I * mask *)
+Definition com_step_inplace (Rn Cn H W : nat) (I4 : list (list matrix)) (c : com_call)
+  : (list (list Q) * list (list Q)) * list (list matrix) :=
+  match c with
+  | ComCall true m => (com_vectorised H W m I4, I4)
+  | ComCall false m => (com_looped Rn Cn H W m I4, map (map (apply_mask m)) I4)
+  end.
+
+Fixpoint com_history {R : Type} (step : list (list matrix) -> com_call -> R * list (list matrix))
+         (I4 : list (list matrix)) (calls : list com_call) : list R :=
+  match calls with
+  | [] => []
+  | c :: cs => let '(r, I4') := step I4 c in r :: com_history step I4' cs
+  end.
+
+(* a 0/1 detector mask *)
+Definition binary_mask (m : matrix) : Prop :=
+  Forall (Forall (fun x => (x == 0)%Q \/ (x == 1)%Q)) m.
+
+(* ---------------------------------------------------------------- curve_fit families *)
+(* _parabola(xy, c0, cx1, cx2, cy1, cy2, cxy) on the (r, c) index grid *)
+Definition parabola_fn (p : Q * Q * Q * Q * Q * Q) (r c : nat) : Q :=
+  let '(c0, cx1, cx2, cy1, cy2, cxy) := p in
+  let x := Qn r in let y := Qn c in
+  (c0 + cx1 * x + cy1 * y + cx2 * (x * x) + cy2 * (y * y) + cxy * x * y)%Q.
+
+(* _bezier_two(xy, c00, c01, c02, c10, c11, c12, c20, c21, c22) *)
+Definition bezier2_fn (p : (Q * Q * Q) * (Q * Q * Q) * (Q * Q * Q)) (r c : nat) : Q :=
+  let '((c00, c01, c02), (c10, c11, c12), (c20, c21, c22)) := p in
+  let x := Qn r in let y := Qn c in
+  (c00 * ((1 - x) * (1 - x)) * ((1 - y) * (1 - y))
+   + c10 * 2 * (1 - x) * x * ((1 - y) * (1 - y))
+   + c20 * (x * x) * ((1 - y) * (1 - y))
+   + c01 * 2 * ((1 - x) * (1 - x)) * (1 - y) * y
+   + c11 * 4 * (1 - x) * x * (1 - y) * y
+   + c21 * 2 * (x * x) * (1 - y) * y
+   + c02 * ((1 - x) * (1 - x)) * (y * y)
+   + c12 * 2 * (1 - x) * x * (y * y)
+   + c22 * (x * x) * (y * y))%Q.
+
+Definition const_fn (k : Q) (_ _ : nat) : Q := k.
+
+(* explicit re-parametrisations: a constant as a plane, a plane as a parabola, a parabola in
+   the Bernstein basis (1 = B0+B1+B2, t = B1/2 + B2, t^2 = B2) *)
+Definition plane_of_const (k : Q) : Q * Q * Q := (0%Q, 0%Q, k).
+Definition parabola_of_plane (p : Q * Q * Q) : Q * Q * Q * Q * Q * Q :=
+  let '(mx, my, b) := p in (b, mx, 0%Q, my, 0%Q, 0%Q).
+Definition bezier2_of_parabola (p : Q * Q * Q * Q * Q * Q) : (Q * Q * Q) * (Q * Q * Q) * (Q * Q * Q) :=
+  let '(c0, cx1, cx2, cy1, cy2, cxy) := p in
+  let a (i : nat) : Q := match i with O => 0%Q | S O => (1 # 2)%Q | _ => 1%Q end in
+  let b (i : nat) : Q := match i with O => 0%Q | S O => 0%Q | _ => 1%Q end in
+  let k (i j : nat) : Q := (c0 + cx1 * a i + cy1 * a j + cx2 * b i + cy2 * b j + cxy * a i * a j)%Q in
+  ((k 0 0, k 0 1, k 0 2), (k 1 0, k 1 1, k 1 2), (k 2 0, k 2 1, k 2 2)).
+
+(* ---------------------------------------------------------------- shift: general shifts *)
+(* bilinear interpolation on the PERIODIC continuation of the pattern (what a circular shift
+   by a non-integer amount would be) *)
+Definition getp (H W : nat) (I : matrix) (y x : Z) : Q :=
+  get I (Z.to_nat (y mod Z.of_nat H)) (Z.to_nat (x mod Z.of_nat W)).
+
+Definition pbilinear (H W : nat) (I : matrix) (gy gx : Q) : Q :=
+  let y0 := Qfloor gy in let x0 := Qfloor gx in
+  let wy := (gy - inject_Z y0)%Q in let wx := (gx - inject_Z x0)%Q in
+  (getp H W I y0 x0 * ((1 - wy) * (1 - wx))
+   + getp H W I y0 (x0 + 1) * ((1 - wy) * wx)
+   + getp H W I (y0 + 1) x0 * (wy * (1 - wx))
+   + getp H W I (y0 + 1) (x0 + 1) * (wy * wx))%Q.
+
+(* shift_origin_to with fixes/C18-shift-unit-detector-dimension.diff: the [-1,1] normalisation
+   divides by max(size - 1, 1); grid_sample un-normalises with (size - 1) *)
+Definition dn (n : nat) : Q := Qn (Nat.max (n - 1) 1).
+Definition shift_pattern_r (H W : nat) (oy ox cy cx : Q) (I : matrix) : matrix :=
+  map (fun y => map (fun x =>
+    let sy := qmod (Qn y + (oy - cy)) (Qn H) in
+    let sx := qmod (Qn x + (ox - cx)) (Qn W) in
+    let gxn := (2 * sx / dn W - 1)%Q in
+    let gyn := (2 * sy / dn H - 1)%Q in
+    bilinear H W I ((gyn + 1) / 2 * (Qn H - 1))%Q ((gxn + 1) / 2 * (Qn W - 1))%Q)
+    (seq 0 W)) (seq 0 H).
+
+(* masks given in quarters (harness glue: 0, 1/4, 1/2, 3/4, 1 are exact in float32) *)
+Definition qmat4 (m : list (list Z)) : matrix := map (map (fun z => (z # 4)%Q)) m.
+
+(* exactly what the zero-padded bilinear sampler returns for a coordinate inside [0,H) x [0,W):
+   the periodic interpolation with every neighbour beyond the last row / column replaced by 0 *)
+Definition zb (b : bool) (q : Q) : Q := if b then q else 0%Q.
+Definition seam_bilinear (H W : nat) (I : matrix) (gy gx : Q) : Q :=
+  let y0 := Qfloor gy in let x0 := Qfloor gx in
+  let wy := (gy - inject_Z y0)%Q in let wx := (gx - inject_Z x0)%Q in
+  let iy := (y0 + 1 <? Z.of_nat H)%Z in let ix := (x0 + 1 <? Z.of_nat W)%Z in
+  (getp H W I y0 x0 * ((1 - wy) * (1 - wx))
+   + zb ix (getp H W I y0 (x0 + 1)) * ((1 - wy) * wx)
+   + zb iy (getp H W I (y0 + 1) x0) * (wy * (1 - wx))
+   + zb (iy && ix) (getp H W I (y0 + 1) (x0 + 1)) * (wy * wx))%Q.
+
+(* a genuinely circular sub-pixel shift (NOT what shift_origin_to computes at the seam) *)
+Definition pshift_pattern (H W : nat) (oy ox cy cx : Q) (I : matrix) : matrix :=
+  map (fun y => map (fun x =>
+    pbilinear H W I (qmod (Qn y + (oy - cy)) (Qn H)) (qmod (Qn x + (ox - cx)) (Qn W)))
+    (seq 0 W)) (seq 0 H).
